@@ -28,7 +28,11 @@ P = {'id': 'C16',
               'spec_invariants',
               'step_refines',
               'run_refines',
-              'property_from_spec'],
+              'property_from_spec',
+              'deadlock_free',
+              'mutex_free_at_quiescence',
+              'counters_exact_at_rest',
+              'drain_empties'],
  'trusted': ['modelled (M+S): src/fsa/version_sync.rs VersionManager::{acquire_reader_token, acquire_writer_token, release_reader_token, '
              'release_writer_token, try_advance_min_version} one shared access per step in the code\'s order, token_chain_mutex as an owner field, '
              'LazyFreeList::process_safe_items / LazyFreeItem::can_free; src/fsa/token.rs TokenManager::{acquire_*_token, return_*_token, '
@@ -63,5 +67,5 @@ P = {'id': 'C16',
  'technique': 'Coq: inductive invariant over all reachable states of an interleaving semantics (rely/guarantee-style frame lemmas), forward simulation to an abstract specification (token-conservation lemma per step), refutation by '
               'vm_compute on explicit schedules; controlled-scheduler (baton passing) differential check of real threads against the model; '
               'pre-emption-bounded schedule enumeration + random schedules; direct oracle on observed tokens and counters',
- 'explanation': 'Unbounded theorems for the concurrent protocol; sequential multi-manager histories checked by model correspondence and oracle.',
+ 'explanation': 'Unbounded theorems for the concurrent protocol (incl. with_*_token, hand-over between threads, bulk reclamation with any threshold), a refinement to an abstract specification, deadlock freedom; the lazy free list proved on its own; sequential multi-manager histories checked by model correspondence and oracle.',
  'harness_timeout': 1500}
